@@ -90,6 +90,45 @@ fn main() {
             let code = engine::run_property(&ctx, def);
             std::process::exit(code);
         }
+        "fuzz-seeds" => {
+            // qv fuzz-seeds <ID> <section> <dir> [n]: write byte strings reproducing ordinary cases
+            let (Some(id), Some(section), Some(dir)) = (pos.first(), pos.get(1), pos.get(2)) else { usage() };
+            let n: usize = pos.get(3).and_then(|s| s.parse().ok()).unwrap_or(64);
+            let h = engine::fuzz_open(id, section, &verif_dir).unwrap_or_else(|e| {
+                eprintln!("{e}");
+                std::process::exit(2)
+            });
+            let _ = std::fs::create_dir_all(dir);
+            for (i, b) in h.seeds(n).into_iter().enumerate() {
+                let _ = std::fs::write(PathBuf::from(dir).join(format!("seed-{i:04}")), b);
+            }
+        }
+        "fuzz-one" => {
+            // qv fuzz-one <ID> <section> <file>: run one byte string (replay of a fuzzer input)
+            let (Some(id), Some(section), Some(file)) = (pos.first(), pos.get(1), pos.get(2)) else { usage() };
+            let h = engine::fuzz_open(id, section, &verif_dir).unwrap_or_else(|e| {
+                eprintln!("{e}");
+                std::process::exit(2)
+            });
+            let data = std::fs::read(file).unwrap_or_else(|e| {
+                eprintln!("cannot read {file}: {e}");
+                std::process::exit(2)
+            });
+            match h.one(&data) {
+                engine::FuzzOutcome::Violation(msg, _) => {
+                    println!("  violation: {msg}");
+                    println!("VIOLATION property={id} replay={file}");
+                    std::process::exit(1);
+                }
+                engine::FuzzOutcome::HarnessError(e) => {
+                    println!("HARNESS-ERROR {e}");
+                    std::process::exit(2);
+                }
+                o => {
+                    println!("replay: PASS property={id} section={section} ({o:?})");
+                }
+            }
+        }
         "replay" => {
             let Some(file) = pos.first() else { usage() };
             let s = std::fs::read_to_string(file).unwrap_or_else(|e| {
